@@ -67,6 +67,48 @@ func c15genShared(rng *core.Rng, tag string, custom bool, group string) c15sessi
 			s.Kinds = append(s.Kinds, "shared-text")
 			continue
 		}
+		if rng.Intn(6) == 0 {
+			// portal life cycle: bind with parameters (NULLs, binary codes, a large value now and then),
+			// describe, execute twice, close, execute the closed portal, multi-statement and empty queries
+			q := "L " + id
+			cols := wire.Columns{{Name: "v", Oid: oid.T_text, Width: -1}}
+			if rng.Intn(4) == 0 {
+				cols = nil
+			}
+			ops := []hs.Op{{K: "complete", Tag: "OK " + id}}
+			if cols != nil {
+				ops = append([]hs.Op{{K: "row", Vals: []any{"row-" + id}}}, ops...)
+			}
+			if rng.Intn(5) == 0 {
+				ops = []hs.Op{{K: "err", Err: &hs.ErrSpec{Base: "exec failure " + id, Wraps: []hs.Wrap{{K: 'c', S: "22003"}}}}}
+			}
+			s.Progs[q] = &hs.Prog{Stmts: []*hs.Stmt{{ID: id, Cols: cols, Params: []oid.Oid{oid.T_text, oid.T_int4}, Ops: ops}}}
+			big := []byte("p-" + id)
+			if rng.Intn(3) == 0 {
+				big = bytes.Repeat([]byte("large-parameter-"), 300+rng.Intn(300))
+			}
+			params := [][]byte{big, nil}
+			if rng.Bool() {
+				params[1] = []byte{0, 0, 1, 2}
+			}
+			var in []byte
+			in = append(in, pg.Parse("ls", q, []uint32{25})...)
+			in = append(in, pg.Describe('S', "ls")...)
+			in = append(in, pg.Bind("lp", "ls", []int16{0, 1}, params, []int16{int16(rng.Intn(2))})...)
+			in = append(in, pg.Describe('P', "lp")...)
+			in = append(in, pg.Execute("lp", 0)...)
+			in = append(in, pg.Execute("lp", uint32(rng.Intn(3)))...)
+			in = append(in, pg.Flush()...)
+			in = append(in, pg.Close('P', "lp")...)
+			in = append(in, pg.Execute("lp", 0)...)
+			in = append(in, pg.Close('S', "ls")...)
+			in = append(in, pg.Sync()...)
+			in = append(in, pg.Sync()...)
+			in = append(in, pg.Query("  ")...)
+			s.Steps = append(s.Steps, in)
+			s.Kinds = append(s.Kinds, "lifecycle")
+			continue
+		}
 		switch k := rng.Intn(100); {
 		case k < 60: // typed table
 			t := c09gen(rng, false)
